@@ -16,10 +16,18 @@ import Chrono.Model.TextFormsExt
   * `tx.<type>.parse x<text>`            `FromStr` alone (type ∈ date, time, ndt, dtf, dtu, off)
   * `tx.dtf.local <yof> <secs> <frac> <off>`  `naive_utc().checked_add_offset(offset)`: the wall clock
                                           if it is a `NaiveDate` → `some <yof> <secs> <frac>` | `none` | `panic`
-  * `tx.dtl <yof> <secs> <frac> <off>`   `DateTime<Local>` holding that UTC reading, `<off>` being the
-                                          offset the system zone gave it; `FromStr for DateTime<Local>`
-                                          with the zone answering `<off>` (exact whenever the text reads
-                                          back as the same instant)
+  * `tx.dtl <yof> <secs> <frac> <off> <od> <op>`  `DateTime<Local>` holding that UTC reading with the
+                                          offset `<off>` (the one the system zone gave it, or a foreign one
+                                          put there by `from_naive_utc_and_offset`); `FromStr for
+                                          DateTime<Local>` of the `Debug` / `Display` text with the zone
+                                          answering `<od>` / `<op>` = `Local.offset_from_utc_datetime` at the
+                                          instant the text denotes (read by the harness through
+                                          `DateTime<FixedOffset>`'s `FromStr`; `none` when it has no reading)
+  * `tx.blockdate <y0> <y1>`             digest over EVERY date of the years `y0..=y1` in order: `Debug`
+                                          text, `FromStr` of it, `Display` text (and `FromStr` of it when it
+                                          differs from the `Debug` text)
+  * `tx.blocktime <s0> <s1>`             the same for `NaiveTime`: every second `s0..=s1` × the fractions
+                                          `blockFracs`, and the leap representation of each on a second 59
   The `Display` column of `tx.date` / `tx.time` / `tx.off` runs the models of the `Display` impls
   (`date_display`, `time_display`, `offset_display`); `NaiveTime`'s `FromStr` is the stateful
   `time_from_str_st` (Model/TextFormsExt.lean).
@@ -60,8 +68,77 @@ def rdOff (s : List Nat) : String := showRP toString (.ok (offset_from_str s))
 
 def showOptNatIdx (o : Option Nat) : String := match o with | some i => toString i | none => "none"
 
+/-! ### exhaustive blocks as digests (FNV-1a style mixing on machine words, as Drv/Date.lean) -/
+
+def mix64 (h : UInt64) (v : Int) : UInt64 :=
+  (h ^^^ v.toInt64.toUInt64) * 1099511628211
+
+def seed64 : UInt64 := 14695981039346656037
+
+/-- a text: its length, then its bytes; `-1` for `fmt::Error`, `-2` for a panic -/
+def mixW (h : UInt64) (w : W) : UInt64 :=
+  match w with
+  | .ok (some b) => b.foldl (fun h (x : Nat) => mix64 h (Int.ofNat x)) (mix64 h (Int.ofNat b.length))
+  | .ok none => mix64 h (-1)
+  | .panic => mix64 h (-2)
+
+/-- one value: `Debug` text, its reading, `Display` text, and its reading when the texts differ -/
+def mixForms (h : UInt64) (dbg dsp : W) (rd : UInt64 → List Nat → UInt64) : UInt64 :=
+  let h := mixW h dbg
+  let h := match dbg with
+    | .ok (some b) => rd h b
+    | _ => mix64 h (-3)
+  let h := mixW h dsp
+  if dsp = dbg then h else
+    match dsp with
+    | .ok (some b) => rd h b
+    | _ => mix64 h (-3)
+
+def mixDateRead (h : UInt64) (s : List Nat) : UInt64 :=
+  match date_from_str s with
+  | .ok (.ok d) => mix64 h d.yof
+  | .ok (.error _) => mix64 h (-1)
+  | .panic => mix64 h (-2)
+
+def mixTimeRead (h : UInt64) (s : List Nat) : UInt64 :=
+  match time_from_str_st s with
+  | .ok t => mix64 (mix64 h t.secs) t.frac
+  | .error _ => mix64 h (-1)
+
+/-- every date of the years `y0..=y1` in order (ordinals 1..=366 that `from_yo_opt` accepts) -/
+def blockDate (y0 y1 : Int) : UInt64 :=
+  let n := (y1 - y0 + 1).toNat
+  (List.range n).foldl (fun h (i : Nat) =>
+    (List.range 367).foldl (fun h o =>
+      match M.Date.from_yo_opt (y0 + (i : Int)) o with
+      | .ok (some d) => mixForms h (date_debug d) (date_display d) mixDateRead
+      | _ => h) h) seed64
+
+/-- representatives of the fraction classes: no digits, 3, 6 and 9 digits, each with its ends and with
+leading / trailing zeros inside the printed digits (the harness uses the same list) -/
+def blockFracs : List Int :=
+  [0, 1, 999, 1000, 1001, 999000, 999999, 1000000, 1000001, 10000000, 100000000, 123456789, 500000000,
+   999000000, 999999000, 999999999, 120000000, 123456000]
+
+def blockTime (s0 s1 : Int) : UInt64 :=
+  let n := (s1 - s0 + 1).toNat
+  (List.range n).foldl (fun h (i : Nat) =>
+    let secs := s0 + (i : Int)
+    let h := blockFracs.foldl (fun h f =>
+      mixForms h (time_debug ⟨secs, f⟩) (time_display ⟨secs, f⟩) mixTimeRead) h
+    if secs % 60 = 59 then
+      blockFracs.foldl (fun h f =>
+        mixForms h (time_debug ⟨secs, f + 1000000000⟩) (time_display ⟨secs, f + 1000000000⟩) mixTimeRead) h
+    else h) seed64
+
+def intOr0 (s : String) : Int := (int? s).getD 0
+
 def handle (op : String) (args : List String) : Option String :=
   match op, args with
+  | "tx.blockdate", [y0, y1] => some (match int? y0, int? y1 with
+      | some y0, some y1 => toString (blockDate y0 y1) | _, _ => bad)
+  | "tx.blocktime", [s0, s1] => some (match int? s0, int? s1 with
+      | some s0, some s1 => toString (blockTime s0 s1) | _, _ => bad)
   | "tx.date", [y] => some (match int? y with
       | some y => s!"{both (date_debug ⟨y⟩) rdDate} | {both (date_display ⟨y⟩) rdDate}"
       | none => bad)
@@ -97,11 +174,13 @@ def handle (op : String) (args : List String) : Option String :=
         let p (s : List Nat) := showOptNatIdx ((Month.parse s).map Month.toNat)
         s!"{hexEncode (month_debug m)} {hexEncode m.name} {p (month_debug m)} {p m.name}"
       | none => bad)
-  | "tx.dtl", [y, s, f, o] => some (match ints? [y, s, f, o] with
+  | "tx.dtl", [y, s, f, o, od, op] => some (match ints? [y, s, f, o] with
       | some [y, s, f, o] =>
         let z : Zoned := ⟨⟨⟨y⟩, ⟨s, f⟩⟩, o⟩
-        let rd (t : List Nat) : String := showRP showZ (local_from_str (fun _ => o) t)
-        s!"{both (local_dt_debug z) rd} | {both (local_dt_display z) rd}"
+        -- the zone's answer at the instant each text denotes (`none`: the text has no reading, the
+        -- zone is not asked)
+        let rd (zo : String) (t : List Nat) : String := showRP showZ (local_from_str (fun _ => intOr0 zo) t)
+        s!"{both (local_dt_debug z) (rd od)} | {both (local_dt_display z) (rd op)}"
       | _ => bad)
   | "tx.dtf.local", [y, s, f, o] => some (match ints? [y, s, f, o] with
       | some [y, s, f, o] =>
